@@ -14,10 +14,11 @@ import (
 	"strings"
 
 	"golang.org/x/tools/go/packages"
+	"golang.org/x/tools/go/ssa"
 )
 
 func init() {
-	register("C17", "proof", LoadOpts{}, checkC17)
+	register("C17", "proof", LoadOpts{SSA: true}, checkC17)
 }
 
 type bit struct{ k, i, b int } // k: 0 zero, 1 one, 2 in(i,b), 3 unknown
@@ -30,6 +31,8 @@ func (x bit) String() string {
 		return "1"
 	case 2:
 		return fmt.Sprintf("in(%d,%d)", x.i, x.b)
+	case 4:
+		return fmt.Sprintf("!in(%d,%d)", x.i, x.b)
 	}
 	return "⊤"
 }
@@ -345,123 +348,128 @@ func bpDispatch(c *Ctx, p *packages.Package, entry string) (map[int]*ast.FuncDec
 }
 
 func checkC17(c *Ctx) {
-	c.R.Explanation = "Bit-provenance abstract interpretation of internal/bitpack (go/ast + go/types constant evaluation): every output bit of each pack/unpack function is evaluated to 0, 1, 'bit b of input element i' or unknown; obligations: pack_W output bit 8j+k is exactly input bit (i,b) with i*W+b = 8j+k (LSB-first little-endian), depends on no bit >= W; unpack_W element i bit b<W is stream bit i*W+b, higher bits 0; the two maps are mutually inverse bijections; Pack/Unpack dispatch case W to the function proven for W; the call sites in rle pass an 8-element buffer and the same width on both sides."
+	c.R.Explanation = "Bit-provenance abstract interpretation of internal/bitpack over go/ssa (entry points Pack and Unpack interpreted for each width on fully symbolic inputs; loops and helpers are followed, data-dependent branches make the result undecided): every output bit is evaluated to 0, 1, 'bit b of input element i' or unknown; obligations: pack_W output bit 8j+k is exactly input bit (i,b) with i*W+b = 8j+k (LSB-first little-endian), depends on no bit >= W; unpack_W element i bit b<W is stream bit i*W+b, higher bits 0; the two maps are mutually inverse bijections; Pack/Unpack dispatch case W to the function proven for W; the call sites in rle pass an 8-element buffer and the same width on both sides."
 	bpCore(c)
 	c.R.Extra["checker_cmd"] = "/verif/bin/verif check C17"
 	c.R.Extra["trusted_base"] = []string{"go/parser, go/types and go/constant (parsing, typing, constant evaluation of masks and shift counts)",
-		"the bit-level transfer functions for & | ^ &^ << >> and integer conversion in /verif/checker/bp.go (about 80 lines)",
-		"Go semantics of append and slice literals (element order)"}
+		"the abstract interpreter over go/ssa in /verif/checker/bpssa.go (about 550 lines: bit-level transfer functions for & | ^ &^ << >> + conversions, constant arithmetic for data-independent values, slices/arrays/append, calls, phis)",
+		"go/ssa's translation of the package to SSA form"}
 	c.R.assume("C17's statement about 8-value groups of width 1-4; width 0 and widths > 4 are dispatched to the default cases (no bytes / empty slice) and are outside the property")
 }
 
-// bpCore emits the BP obligations (shared by C17 and C07).
+// bpCore emits the BP obligations (shared by C17 and C07). The entry points Pack and Unpack are interpreted abstractly
+// (bpssa.go) for each width on fully symbolic inputs, so the verdict does not depend on how the package is written.
 func bpCore(c *Ctx) {
 	r, u := c.R, c.U
-	p := u.Pkgs[bitpackPath]
-	rl := u.Pkgs[rlePath]
-	packs, pc := bpDispatch(c, p, "Pack")
-	unpacks, uc := bpDispatch(c, p, "Unpack")
-	r.count("BP/dispatch-cases", pc+uc)
+	pack := u.Func(bitpackPath, "Pack")
+	unpack := u.Func(bitpackPath, "Unpack")
+	if pack == nil || unpack == nil || len(pack.Params) != 3 || len(unpack.Params) != 2 {
+		r.failf("bitpack.Pack(b, width, vals) / bitpack.Unpack(width, vals) not found")
+		return
+	}
 	packMap := map[int]vec{}
 	unpackMap := map[int]vec{}
 	for w := 1; w <= 4; w++ {
-		for _, side := range []string{"pack", "unpack"} {
-			fd := packs[w]
-			if side == "unpack" {
-				fd = unpacks[w]
-			}
-			key := fmt.Sprintf("%s width %d", side, w)
-			if fd == nil {
-				r.bad("BP/dispatch", key, "", fmt.Sprintf("no %s function is dispatched for width %d", side, w))
-				continue
-			}
-			r.ok("BP/dispatch", key, u.Pos(fd.Pos()), "dispatches to "+fd.Name.Name)
-			stream, n, err := bpStream(p, fd, side == "pack")
-			if err != nil {
-				r.undecided("BP/shape", fd.Name.Name, u.Pos(fd.Pos()), err.Error())
-				continue
-			}
+		// Pack(nil, w, vals[0..7])
+		res, err := bpRun(u, pack, []aval{aSlice{}, mkConst(int64(w), 64), symSlice(8, 8)})
+		key := fmt.Sprintf("Pack width %d", w)
+		pos := u.Pos(pack.Pos())
+		if err != "" {
+			r.undecided("BP/shape", key, pos, "abstract interpretation of Pack is undecided: "+err)
+		} else {
+			stream, n, e2 := sliceBits(res[0])
 			r.count("BP/functions", 1)
-			if side == "pack" {
+			switch {
+			case e2 != "":
+				r.undecided("BP/shape", key, pos, e2)
+			default:
 				if n != w {
-					r.bad("BP/len", fd.Name.Name, u.Pos(fd.Pos()), fmt.Sprintf("appends %d bytes, a width-%d group is %d bytes", n, w, w))
+					r.bad("BP/len", key, pos, fmt.Sprintf("appends %d bytes, a width-%d group is %d bytes", n, w, w))
 				} else {
-					r.ok("BP/len", fd.Name.Name, u.Pos(fd.Pos()), fmt.Sprintf("appends %d bytes", n))
+					r.ok("BP/len", key, pos, fmt.Sprintf("appends %d bytes", n))
 				}
-				for pos := 0; pos < 8*w; pos++ {
-					k := fmt.Sprintf("%s (as width %d) stream bit %d", fd.Name.Name, w, pos)
-					want := bit{k: 2, i: pos / w, b: pos % w}
-					var got bit = bit{k: 3}
-					if pos < len(stream) {
-						got = stream[pos]
+				for p := 0; p < 8*w; p++ {
+					k := fmt.Sprintf("Pack width %d stream bit %d", w, p)
+					want := bit{k: 2, i: p / w, b: p % w}
+					got := bit{k: 3}
+					if p < len(stream) {
+						got = stream[p]
 					}
 					r.count("BP/bits", 1)
 					if got != want {
-						r.bad("BP/bit", k, u.Pos(fd.Pos()), fmt.Sprintf("is %s, must be %s", got, want))
+						r.bad("BP/bit", k, pos, fmt.Sprintf("is %s, must be %s (bit %d of value %d)", got, want, p%w, p/w))
 					} else {
-						r.ok("BP/bit", k, u.Pos(fd.Pos()), "is "+got.String())
+						r.ok("BP/bit", k, pos, "is "+got.String())
 					}
 				}
 				packMap[w] = stream
-			} else {
-				if n != 8 {
-					r.bad("BP/len", fd.Name.Name, u.Pos(fd.Pos()), fmt.Sprintf("returns %d elements, a group has 8", n))
-				} else {
-					r.ok("BP/len", fd.Name.Name, u.Pos(fd.Pos()), "returns 8 elements")
-				}
-				for i := 0; i < 8; i++ {
-					for b := 0; b < 8; b++ {
-						k := fmt.Sprintf("%s (as width %d) element %d bit %d", fd.Name.Name, w, i, b)
-						var want bit
-						if b < w {
-							sp := i*w + b
-							want = bit{k: 2, i: sp / 8, b: sp % 8}
-						}
-						got := bit{k: 3}
-						if i*8+b < len(stream) {
-							got = stream[i*8+b]
-						}
-						r.count("BP/bits", 1)
-						if got != want {
-							r.bad("BP/bit", k, u.Pos(fd.Pos()), fmt.Sprintf("is %s, must be %s", got, want))
-						} else {
-							r.ok("BP/bit", k, u.Pos(fd.Pos()), "is "+got.String())
-						}
-					}
-				}
-				unpackMap[w] = stream
 			}
 		}
+		// Unpack(w, bytes[0..w-1])
+		res, err = bpRun(u, unpack, []aval{mkConst(int64(w), 64), symSlice(w, 8)})
+		key = fmt.Sprintf("Unpack width %d", w)
+		pos = u.Pos(unpack.Pos())
+		if err != "" {
+			r.undecided("BP/shape", key, pos, "abstract interpretation of Unpack is undecided: "+err)
+			continue
+		}
+		stream, n, e2 := sliceBits(res[0])
+		r.count("BP/functions", 1)
+		if e2 != "" {
+			r.undecided("BP/shape", key, pos, e2)
+			continue
+		}
+		if n != 8 {
+			r.bad("BP/len", key, pos, fmt.Sprintf("returns %d elements, a group has 8", n))
+		} else {
+			r.ok("BP/len", key, pos, "returns 8 elements")
+		}
+		for i := 0; i < 8; i++ {
+			for b := 0; b < 8; b++ {
+				k := fmt.Sprintf("Unpack width %d element %d bit %d", w, i, b)
+				var want bit
+				if b < w {
+					sp := i*w + b
+					want = bit{k: 2, i: sp / 8, b: sp % 8}
+				}
+				got := bit{k: 3}
+				if i*8+b < len(stream) {
+					got = stream[i*8+b]
+				}
+				r.count("BP/bits", 1)
+				if got != want {
+					r.bad("BP/bit", k, pos, fmt.Sprintf("is %s, must be %s", got, want))
+				} else {
+					r.ok("BP/bit", k, pos, "is "+got.String())
+				}
+			}
+		}
+		unpackMap[w] = stream
 		// inverse check, from the two computed maps (not assumed)
 		pk, up := packMap[w], unpackMap[w]
 		if len(pk) == 8*w && len(up) == 64 {
-			okInv := true
-			why := ""
+			okInv, why := true, ""
 			for i := 0; i < 8 && okInv; i++ {
 				for b := 0; b < w; b++ {
-					// unpack(pack(v))[i] bit b: unpack reads stream bit s=(up.i*8+up.b); pack puts in(i',b') there
 					s := up[i*8+b]
 					if s.k != 2 || s.i*8+s.b >= len(pk) {
 						okInv, why = false, fmt.Sprintf("element %d bit %d does not come from the stream", i, b)
 						break
 					}
-					src := pk[s.i*8+s.b]
-					if src != (bit{k: 2, i: i, b: b}) {
+					if src := pk[s.i*8+s.b]; src != (bit{k: 2, i: i, b: b}) {
 						okInv, why = false, fmt.Sprintf("unpack(pack(v))[%d] bit %d is %s", i, b, src)
 						break
 					}
 				}
 			}
-			// pack(unpack(bytes)) = bytes: every stream bit is reproduced
-			for pos := 0; pos < 8*w && okInv; pos++ {
-				s := pk[pos]
+			for p := 0; p < 8*w && okInv; p++ {
+				s := pk[p]
 				if s.k != 2 {
-					okInv, why = false, fmt.Sprintf("stream bit %d is not an input bit", pos)
+					okInv, why = false, fmt.Sprintf("stream bit %d is not an input bit", p)
 					break
 				}
-				src := up[s.i*8+s.b]
-				if src != (bit{k: 2, i: pos / 8, b: pos % 8}) {
-					okInv, why = false, fmt.Sprintf("pack(unpack(bytes)) bit %d is %s", pos, src)
+				if src := up[s.i*8+s.b]; src != (bit{k: 2, i: p / 8, b: p % 8}) {
+					okInv, why = false, fmt.Sprintf("pack(unpack(bytes)) bit %d is %s", p, src)
 				}
 			}
 			if okInv {
@@ -471,11 +479,151 @@ func bpCore(c *Ctx) {
 			}
 		}
 	}
-	bpCallSites(c, rl, p)
+	bpCallSitesSSA(c)
 	r.floor("BP/bits", 336, "80 pack stream bits + 256 unpack element bits")
-	r.floor("BP/functions", 8, "pack1..4, unpack1..4")
-	r.floor("BP/dispatch-cases", 8, "4 cases in Pack and 4 in Unpack")
+	r.floor("BP/functions", 8, "Pack and Unpack for widths 1..4")
 	r.floor("BP/callsites", 2, "Pack in the encoder, Unpack in the decoder")
+}
+
+// bpCallSitesSSA: the encoder hands Pack an 8-element value buffer and its configured width; the decoder hands Unpack
+// exactly `width` bytes and the same configured width (the same field of the RLE object on both sides).
+func bpCallSitesSSA(c *Ctx) {
+	r, u := c.R, c.U
+	// rootField: the struct field a width value is read from, looking through conversions, locals and — for a
+	// parameter — the arguments at every call site of the function
+	var rootField func(v ssa.Value, depth int) (*types.Var, string)
+	rootField = func(v ssa.Value, depth int) (*types.Var, string) {
+		if depth > 6 {
+			return nil, "too deep"
+		}
+		switch x := v.(type) {
+		case *ssa.Convert:
+			return rootField(x.X, depth+1)
+		case *ssa.UnOp:
+			if f := fieldOfLoad(x); f != nil {
+				return f, ""
+			}
+		case *ssa.Parameter:
+			fn := x.Parent()
+			idx := -1
+			for i, p := range fn.Params {
+				if p == x {
+					idx = i
+				}
+			}
+			var fld *types.Var
+			n := 0
+			for _, cs := range callersOf(fn) {
+				f2, why := rootField(callArgs(cs.Common())[idx], depth+1)
+				if f2 == nil {
+					return nil, why
+				}
+				if fld != nil && fld != f2 {
+					return nil, "callers pass different fields"
+				}
+				fld = f2
+				n++
+			}
+			if n == 0 {
+				return nil, "no call site of " + fn.Name()
+			}
+			return fld, ""
+		case *ssa.Phi:
+			var fld *types.Var
+			for _, e := range x.Edges {
+				f2, why := rootField(e, depth+1)
+				if f2 == nil {
+					return nil, why
+				}
+				if fld != nil && fld != f2 {
+					return nil, "phi of different fields"
+				}
+				fld = f2
+			}
+			return fld, ""
+		}
+		return nil, "width is " + symExpr(v, 0)
+	}
+	var encW, decW *types.Var
+	for _, f := range rleFuncs(u) {
+		for _, call := range callsTo(f, bitpackPackName) {
+			r.count("BP/callsites", 1)
+			key := "rle." + f.Name() + " -> bitpack.Pack"
+			pos := u.Pos(call.Pos())
+			fw, why := rootField(call.Call.Args[1], 0)
+			if fw == nil {
+				r.bad("BP/callsite", key+" width", pos, "the width handed to Pack is not the encoder's configured bit width: "+why)
+			} else {
+				encW = fw
+				r.ok("BP/callsite", key+" width", pos, "width = field "+fw.Name()+" of the encoder")
+			}
+			fb := fieldOfLoad(call.Call.Args[2])
+			if fb == nil {
+				r.undecided("BP/callsite", key+" values", pos, "values argument is not a field of the encoder: "+symExpr(call.Call.Args[2], 0))
+				continue
+			}
+			ctor, other := storesTo(u, fb)
+			bad := ""
+			n := -1
+			for _, st := range ctor {
+				n = fixedBufLen(st.Val)
+			}
+			if len(other) > 0 {
+				bad = "the value buffer field is reassigned at " + u.Pos(other[0].Pos())
+			}
+			for _, g := range rleFuncs(u) {
+				for _, b := range g.Blocks {
+					for _, ins := range b.Instrs {
+						if sl, ok := ins.(*ssa.Slice); ok && fieldOfLoad(sl.X) == fb && (sl.Low != nil || sl.High != nil) {
+							bad = "the value buffer field is resliced at " + u.Pos(sl.Pos())
+						}
+					}
+				}
+			}
+			switch {
+			case bad != "":
+				r.bad("BP/callsite", key+" values", pos, bad)
+			case n != 8:
+				r.bad("BP/callsite", key+" values", pos, fmt.Sprintf("the value buffer has %d elements, a group has 8", n))
+			default:
+				r.ok("BP/callsite", key+" values", pos, "field "+fb.Name()+" = make([]uint8, 8), never reassigned or resliced")
+			}
+		}
+		for _, call := range callsTo(f, bitpackUnpackName) {
+			r.count("BP/callsites", 1)
+			key := "rle." + f.Name() + " -> bitpack.Unpack"
+			pos := u.Pos(call.Pos())
+			sl, _ := call.Call.Args[1].(*ssa.Slice)
+			same := false
+			if sl != nil && sl.High != nil {
+				lowZero := sl.Low == nil || constIs(sl.Low, 0)
+				same = lowZero && stripConvert(sl.High) == stripConvert(call.Call.Args[0])
+				if !same && lowZero {
+					// both are conversions of the same width value through different locals
+					same = symExpr(stripConvert(sl.High), 0) == symExpr(stripConvert(call.Call.Args[0]), 0)
+				}
+			}
+			if !same {
+				r.bad("BP/callsite", key+" bytes", pos, "Unpack must receive buf[:width] with the same width it is told")
+			} else {
+				r.ok("BP/callsite", key+" bytes", pos, "Unpack(width, buf[:width])")
+			}
+			fw, why := rootField(call.Call.Args[0], 0)
+			if fw == nil {
+				r.bad("BP/callsite", key+" width", pos, "the width handed to Unpack is not the decoder's configured bit width: "+why)
+			} else {
+				decW = fw
+				r.ok("BP/callsite", key+" width", pos, "width = field "+fw.Name()+" of the decoder")
+			}
+		}
+	}
+	if encW != nil && decW != nil {
+		if encW == decW {
+			r.ok("BP/callsite", "same width field on both sides", "", "encoder and decoder take the width from the same field "+encW.Name())
+		} else {
+			r.bad("BP/callsite", "same width field on both sides", "", "encoder width comes from "+encW.Name()+", decoder width from "+decW.Name())
+		}
+	}
 }
 
 // bpStream evaluates the single return statement of a pack/unpack function.
